@@ -77,12 +77,13 @@ static void contextUnref(MPT_INTERFACE(metatype) *mt)
 {
 	MPT_STRUCT(reply_context_defer) *ctx = MPT_baseaddr(reply_context_defer, mt, _mt);
 	
+	/* default reply for armed request while transport is still attached */
+	if (ctx->reply.send && ctx->data.len) {
+		contextSend(ctx, &ctx->data, 0);
+	}
 	if (mpt_refcount_lower(&ctx->ref)) {
 		ctx->reply.send = 0;
 		return;
-	}
-	if (ctx->reply.send && ctx->data.len) {
-		contextSend(ctx, &ctx->data, 0);
 	}
 	free(ctx);
 }
